@@ -50,6 +50,7 @@ def items(toks):
     """yield (container_header_tokens or None, start_idx, end_idx_exclusive, kind, name) for all items, one nesting level of impl/trait deep;
     descends into non-test `mod` blocks."""
     out = []
+    modname = [None]
 
     def scan(lo, hi, container):
         i = lo
@@ -61,7 +62,7 @@ def items(toks):
                 seg = toks[start:i + 1]
                 kn = _kind_name(seg)
                 if kn:
-                    out.append((container, start, i + 1, kn[0], kn[1]))
+                    out.append((container, start, i + 1, kn[0], kn[1], modname[0]))
                 start = i + 1
                 i += 1
                 continue
@@ -77,12 +78,15 @@ def items(toks):
                     # container
                     k = htx.index('impl') if 'impl' in htx[:3] else htx.index('trait')
                     if kn and kn[0] == 'trait':
-                        out.append((container, start, j + 1, 'trait', kn[1]))
+                        out.append((container, start, j + 1, 'trait', kn[1], modname[0]))
                     scan(i + 1, j, htx[k:])
                 elif htx and 'mod' in htx[:3] and 'fn' not in htx:
                     name = htx[htx.index('mod') + 1]
                     if name not in ('tests', 'test'):
+                        saved = modname[0]
+                        modname[0] = name
                         scan(i + 1, j, container)
+                        modname[0] = saved
                 elif kn:
                     # Verus syntax only (authoring helper): a brace block inside a contract clause (`ensures match r {..}`) is
                     # followed by the real body; never happens in plain Rust
@@ -98,7 +102,7 @@ def items(toks):
                             break
                         j = _match_close(toks, q)
                     end = j + 1
-                    out.append((container, start, end, kn[0], kn[1]))
+                    out.append((container, start, end, kn[0], kn[1], modname[0]))
                 elif htx[:2] == ['verus', '!']:
                     scan(i + 1, j, container)
                 elif htx and htx[0].endswith('!') or (len(htx) >= 2 and htx[1] == '!'):
@@ -145,13 +149,20 @@ def locate(src_text, path):
     toks = strip_attrs(toks)
     ctoks, kind, name = parse_path(path)
     found = []
-    for (cont, s, e, k, nm) in items(toks):
+    inmod = []
+    for (cont, s, e, k, nm, mod) in items(toks):
         if k == kind and nm == name:
             if ctoks is None:
                 if cont is None:
+                    (found if mod is None else inmod).append((s, e))
+            elif len(ctoks) == 2 and ctoks[0] == 'mod':
+                # `mod NAME :: fn f`: a free item of an inline module
+                if cont is None and mod == ctoks[1]:
                     found.append((s, e))
             elif cont is not None and cont == ctoks:
                 found.append((s, e))
+    if ctoks is None and not found:
+        found = inmod      # a path without container also names an item of an inline module when there is no top-level one
     if len(found) != 1:
         raise LostItem('item %r found %d times' % (path, len(found)))
     s, e = found[0]
